@@ -176,7 +176,7 @@ fn enumerate_templates(r: &mut Report, shard: usize, shards: usize, max_depth: u
 // ---------------------------------------------------------------------------------------
 // (3) residue: later code behaves the same after one iteration or a hundred thousand
 
-const LOOP_BODIES: [(&str, &str); 14] = [
+const LOOP_BODIES: [(&str, &str); 27] = [
     ("empty-body", "zolang (i = i + 1) < N { }"),
     ("counter-only", "zolang i < N { i = i + 1 }"),
     ("empty-block-stmt", "zolang i < N { i = i + 1; {} }"),
@@ -188,16 +188,30 @@ const LOOP_BODIES: [(&str, &str); 14] = [
     ("loop-as-value", "stel w = zolang i < N { i = i + 1; i }"),
     ("inner-loop", "zolang i < N { i = i + 1; stel j = 0; zolang j < 2 { j = j + 1 } }"),
     ("call-in-body", "zolang i < N { i = i + 1; g = tel(g, 1) }"),
+    // leaving the iteration from every position in which values of a half-evaluated expression are pending
     ("exit-from-operand", "zolang i < N { i = i + 1; g = 1 + als i % 2 == 0 { volgende } anders { 2 } }"),
     ("exit-from-operand", "zolang i < N { i = i + 1; stel j = 0; zolang ja { j = 1 + als j >= 0 { stop } anders { 2 } } }"),
+    ("exit-from-nested-operand", "zolang i < N { i = i + 1; g = 1 + (2 * (3 - als i % 2 == 0 { volgende } anders { 2 })) }"),
     ("exit-from-argument", "zolang i < N { i = i + 1; g = tel(1, als i % 2 == 0 { volgende } anders { 2 }) }"),
+    ("exit-from-first-argument", "zolang i < N { i = i + 1; g = tel(als i % 2 == 0 { volgende } anders { 2 }, 1) }"),
+    ("exit-from-argument-operand", "zolang i < N { i = i + 1; g = tel(1, 2 + als i % 2 == 0 { volgende } anders { 2 }) }"),
+    ("exit-from-builtin-argument", "zolang i < N { i = i + 1; g = lengte(string(als i % 2 == 0 { volgende } anders { 2 })) }"),
+    ("exit-from-array-element", "zolang i < N { i = i + 1; g = lengte([1, 2, als i % 2 == 0 { volgende } anders { 2 }]) }"),
+    ("exit-from-index", "zolang i < N { i = i + 1; g = rij[als i % 2 == 0 { volgende } anders { 0 }] }"),
+    ("exit-from-assigned-element-value", "zolang i < N { i = i + 1; rij[0] = als i % 2 == 0 { volgende } anders { 2 } }"),
+    ("exit-from-assigned-element-index", "zolang i < N { i = i + 1; rij[als i % 2 == 0 { volgende } anders { 0 }] = 5 }"),
+    ("exit-from-condition-operand", "zolang i < N { i = i + 1; als 1 + als i % 2 == 0 { volgende } anders { 2 } > 0 { g = 1 } }"),
+    ("stop-from-array-element", "zolang i < N { i = i + 1; stel j = 0; zolang ja { j = lengte([1, als j >= 0 { stop } anders { 2 }]) } }"),
+    ("stop-from-assigned-element-value", "zolang i < N { i = i + 1; zolang ja { rij[0] = als i > 0 { stop } anders { 2 } } }"),
+    ("stop-from-loop-condition", "zolang i < N { i = i + 1; zolang 1 + als i > 0 { stop } anders { 2 } > 0 { } }"),
+    ("return-from-operand-in-loop", "functie vroeg(k) { zolang ja { stel q = 1 + als k > 0 { antwoord k } anders { 2 } } } zolang i < N { i = i + 1; g = vroeg(i) - i }"),
 ];
 
 const LOOP_COUNTS: [i64; 5] = [1, 2, 70_000, 100_000, 200_000];
 
 fn residue_program(body: &str, n: i64, in_function: bool) -> String {
     let lp = body.replace('N', &n.to_string());
-    let prelude = "functie tel(x, y) { x + y } functie som(a, b) { stel c = a + b; c * 2 } functie diep(n) { als n <= 0 { antwoord 0 } 1 + diep(n - 1) }";
+    let prelude = "functie tel(x, y) { x + y } functie som(a, b) { stel c = a + b; c * 2 } functie diep(n) { als n <= 0 { antwoord 0 } 1 + diep(n - 1) } stel rij = [0, 0]";
     let probe = "print(\"{} {} {}\", som(3, 4), diep(5), g - g); stel laatste = [som(1, 2), diep(3)]; laatste";
     if in_function {
         format!("{prelude} functie werk() {{ stel g = 0; stel i = 0; {lp}; {probe} }} werk()")
@@ -264,7 +278,7 @@ pub fn run_check(ctx: &Ctx) -> Report {
         "(1) ALL chains of nested constructs {if, if-else, else-if, zolang, block, function} up to depth 4 (quick) / 5 (thorough) with every admissible exit action \
          {none, stop, stop on the 2nd round, volgende, volgende on the 2nd round, antwoord, antwoord on the 2nd round} in the innermost body, loop counts {0,1,2,17}, every level instrumented with print trace points, \
          against the reference interpreter; (2) random programs of the `control` profile against the reference interpreter; \
-         (3) residue: 14 loop shapes x {top level, inside a function} x n in {1, 2, 70 000, 100 000, 200 000} followed by a probe (calls with arguments and locals, recursion, globals) whose observation must not depend on n. \
+         (3) residue: 27 loop shapes (every position in which operands are pending when the iteration is left) x {top level, inside a function} x n in {1, 2, 70 000, 100 000, 200 000} followed by a probe (calls with arguments and locals, recursion, globals) whose observation must not depend on n. \
          non-trivial = the executed path takes an early exit from nesting depth >=2 or a loop runs >=2 rounds with a volgende; all residue runs count; distinct by source text",
     );
     rep.assumptions.push("U8: the value of a zolang expression is not fixed; it is only bound to variables that are never read".into());
